@@ -41,9 +41,15 @@ m7 = _stmt("m7_crate_global_path", "$crate::global::TokioRuntimeTestSinkGuard", 
 
 m8 = _stmt("m8_sink_write", "SINK.write().unwrap()", "verif_sink_write()", "M8: write access to the attached sink")
 m9 = _stmt("m9_attach_panic", 'panic!("Already installed a global {NAME} sink,', 'verif_documented_panic("Already installed a global {NAME} sink,', "M9: the documented panic of a second attach")
-m10 = _stmt("m10_store", "*write = Some((BoxEntrySink::new(sink), Box::new(handle)));", "write.verif_store(BoxEntrySink::new(sink), Box::new(handle));",
-            "M10: assignment through the write guard (DerefMut), as a method that carries C17's obligation: an attached sink is never overwritten")
+def m10_store(text):
+    """M10: `*GUARD = Some((BoxEntrySink::new(sink), Box::new(handle)));` (assignment through the write guard, DerefMut) ->
+    `GUARD.verif_store(BoxEntrySink::new(sink), Box::new(handle));` - a method that carries C17's obligation: an attached sink is never overwritten"""
+    pat = r"\*([a-z_][a-z_0-9]*) = Some\(\(BoxEntrySink::new\(sink\), Box::new\(handle\)\)\);"
+    n = len(re.findall(pat, text))
+    return re.sub(pat, r"\1.verif_store(BoxEntrySink::new(sink), Box::new(handle));", text), n
 
+
+m10 = m10_store
 m11 = _stmt("m11_tl_with", "THREAD_LOCAL_TEST_SINK.with(", "verif_tl_with(", "M11: access to the thread-local cell (LocalKey::with runs the closure on this thread's cell)")
 m12 = _stmt("m12_tl_store", "*borrowed = sink;", "borrowed.verif_store(sink);",
             "M12: assignment through the RefMut (DerefMut), as a method that carries C17's obligation: an installed test sink is never replaced by another")
@@ -189,7 +195,7 @@ pub fn verif_tl_with<R, F: FnOnce(&TlCell) -> R>(f: F) -> (r: R)
     ensures exists|c: &TlCell| #[trigger] f.ensures((c,), r),
 { unimplemented!() }
 // M6: `panic!(..)` - control never continues past it
-#[verifier::external_body] pub fn verif_documented_panic(msg: &str) ensures false { unimplemented!() }
+#[verifier::external_body] pub fn verif_documented_panic(msg: &str) -> ! { unimplemented!() }
 #[verifier::external_body] pub struct SinkReadGuard { _p: u8 }
 impl SinkReadGuard {
     #[verifier::external_body]
